@@ -428,6 +428,8 @@ def draw_spec_values(ch, ctx, pid, th, names, z, F, inerts, pair, approx, force=
             u = ch.float('theta', 0.02, 0.98)      # strictly between: the boundary values are documented rejections
             if pair == 'TH': kw['H'] = Hl + u * (Hg - Hl)
             else: kw['S'] = Sl + u * (Sg - Sl)
+            # narrow two-phase pressure window (Raoult, volatile part): H(P), S(P) at fixed T are nearly a step
+            kw['_narrow'] = bool((Pb - Pd) < 0.1 * Pb)
     else:
         lo, hi = full_P_window(ctx, approx, z)
         P = draw_in(ch, 'uP', lo, hi, log=True); kw['P'] = P
@@ -526,6 +528,7 @@ def prop_reuse(ch, ctx):
         approx = reference(pid, names, ideal=True)
         try:
             kw, mol, _ = draw_spec_values(ch, ctx, pid, th, names, z, F, inerts, pair, approx)
+            kw.pop('_narrow', None)
         except runner.Reject:
             continue                                   # no admissible specification for this composition: skip the step
         start = dict(kind='M', share=[0.0] * n, T0=300.0, P0=101325.0)
@@ -555,6 +558,7 @@ def spec_case(ch, ctx, pid, ideal, pair, names, z, F, inerts, force, label, prio
     # envelope used only to place the inputs: Raoult, except for x/y pairs where lever-rule feasibility needs the model
     approx = reference(pid, names, ideal=(True if pair[1] not in 'xy' else ideal))
     kw, mol, stratum = draw_spec_values(ch, ctx, pid, th, names, z, F, inerts, pair, approx, force=force)
+    narrow = kw.pop('_narrow', False)
     s = build(th, names, mol, inerts, start) if prior is None else reload(prior, th, names, mol, inerts, start)
     set_default(ch, ctx, pid, ideal)
     itag = ('g' if any(th.chemicals[k].locked_state == 'g' for k in inerts) else '') + \
@@ -562,6 +566,7 @@ def spec_case(ch, ctx, pid, ideal, pair, names, z, F, inerts, force, label, prio
            ('c' if any(th.chemicals[k].locked_state != 'g' and (th.chemicals[k].N_solutes or 0) for k in inerts) else '')
     # 'c': a counted non-volatile solute (N_solutes > 0) takes part in the phase-fraction balance
     region = f'{nvol_tag(n)},inert={itag or "none"},ideal={int(ideal)},pm={pm_tag(pid, names, ideal)}' + (',reused=1' if prior is not None else '')
+    if narrow: region += ',narrow=1'
     site = pair
     ctx.cell('spec:' + pair); ctx.cell('spec:' + nvol_tag(n)); ctx.cell('spec:inert=' + (itag or 'none'))
     ctx.cell(f'spec:{pair}:{stratum}')
@@ -593,6 +598,30 @@ def spec_case(ch, ctx, pid, ideal, pair, names, z, F, inerts, force, label, prio
             ctx.cell(f'accepted:{q}spec.{pair}:bracketed-within-5mK')
             tol = err
         res = 'two' if (snap['g'].sum() > 0 and snap['l'].sum() > 0) else 'single'
+        if err > tol and pair[0] == 'T' and n_eq >= 2 and n >= 2:
+            # region predicate (computed only when a violation is about to be reported): how many plain successive-
+            # substitution steps does the reference need at the returned T, P?  thermosteam's inner flash stops after 20
+            # accelerated steps without a convergence check; where > 20 plain steps are needed its warm-started result
+            # depends on the previous evaluation and H(P) / S(P) look erratic to the outer root finder.
+            try:
+                r = reference(pid, names, ideal=ideal).flash_TP(mol / mol.sum(), s.T, s.P)
+                if r['phase'] == 'lg' and r['iters'] > 20: res += ',inner=slow'
+            except Exception:
+                pass
+        if err > tol and pair[0] == 'T' and n_eq >= 2:
+            # region predicate (failure path only): is the miss caused by the solver's iteration limit (maxiter = 20, no
+            # convergence check)?  Re-run a fresh copy with the class limit raised to 200 and see whether the clause then holds.
+            from thermosteam.equilibrium.vle import VLE as _VLE
+            old_limit = _VLE.maxiter
+            try:
+                _VLE.maxiter = 200
+                c = build(th, names, mol, inerts, start)
+                c.vle(**kw)
+                if abs(getattr(c, q) - kw[q]) <= tol: res += ',maxiter=short'
+            except Exception:
+                pass
+            finally:
+                _VLE.maxiter = old_limit
         ctx.check(err <= tol, f'{q}spec.{site}|{region},res={res}|mismatch',
                   lambda: f'{q} specified {kw[q]!r}, stream.{q} {got!r} (|d|/F_mass={err / F_mass:.3g} per kg, '
                           f'tol {tol / F_mass:.3g} per kg) T={s.T!r} P={s.P!r} V={vapour_fraction(snap)!r}')
@@ -905,6 +934,7 @@ def prop_scaling(ch, ctx):
     n = len(names)
     approx = reference(pid, names, ideal=(True if pair[1] not in 'xy' else ideal))
     kw, mol, stratum = draw_spec_values(ch, ctx, pid, th, names, z, F, inerts, pair, approx)
+    kw.pop('_narrow', None)
     region = f'{nvol_tag(n)},inert={int(bool(inerts))},ideal={int(ideal)},pm={pm_tag(pid, names, ideal)}'
     site = 'scale.' + pair
     ctx.cell('scale:' + pair)
@@ -928,11 +958,26 @@ def prop_scaling(ch, ctx):
     ctx.metric_max(f'scale.{pair}:|dT|', abs(s1.T - s2.T))
     ctx.metric_max(f'scale.{pair}:|dP/P|', abs(s1.P - s2.P) / s1.P)
     tol_scale = TOL_SCALE_S if 'S' in pair else TOL_SCALE
+    p_tol = (1e-4 if 'S' in pair else 1e-6) * s1.P
+    if (worst > tol_scale or abs(s1.P - s2.P) > p_tol) and pair in ('TV', 'TH', 'TS') and abs(s1.P - s2.P) <= 2.0:
+        # the pressure is the solved unknown, resolved to P_tol = 1 Pa: when both pressures agree within that resolution the
+        # flows may differ by what 1 Pa does to the split (large for a nearly pure chemical with a trace of inert gas)
+        sens = 0.0
+        for dP in (-1.0, 1.0):
+            c = build(th, names, mol, inerts, start)
+            try: c.vle(T=s1.T, P=s1.P + dP)
+            except Exception: sens = float('inf'); break
+            cs = snapshot(c)
+            sens = max(sens, float(np.max(np.abs(cs['g'][nz] - a['g'][nz]) / tot[nz])))
+        hist(ctx, f'scale.{pair}:flows/sensitivity-per-Pa', worst / sens if sens else float('inf'))
+        if worst <= P_RESOLUTION_FACTOR * sens:
+            ctx.cell(f'accepted:scale.{pair}:within-P-resolution')
+            tol_scale = max(tol_scale, worst); p_tol = 2.0
     if worst > tol_scale:
         ctx.fail(f'{site}|{region}|flows-not-scaled',
                  f'{th.chemicals.IDs[wi]} in {wp}: {a[wp][wi]!r}*{k!r} != {b[wp][wi]!r} (T {s1.T!r}/{s2.T!r}, P {s1.P!r}/{s2.P!r})')
     ctx.check(abs(s1.T - s2.T) <= (1e-2 if pair == 'PS' else 1e-6 * max(1.0, s1.T)), f'{site}|{region}|T-differs', lambda: f'T {s1.T!r} vs {s2.T!r}')
-    ctx.check(abs(s1.P - s2.P) <= (1e-4 if 'S' in pair else 1e-6) * s1.P, f'{site}|{region}|P-differs', lambda: f'P {s1.P!r} vs {s2.P!r}')
+    ctx.check(abs(s1.P - s2.P) <= p_tol, f'{site}|{region}|P-differs', lambda: f'P {s1.P!r} vs {s2.P!r}')
     if a['g'].sum() > 0 and a['l'].sum() > 0:
         ctx.cell('scale:two-phase')
         ctx.nontriv(['scale', pid, ideal, names, pair, stratum, start['kind'], sorted(inerts)])
